@@ -65,7 +65,8 @@ def schema(attr, ty):
     # attribute that must never be disturbed, an identifier and a referential
     return Schema(
         [('Othr', [('Id', 'UNIQUE_ID')]),
-         ('Thng', [('Id', 'UNIQUE_ID'), (attr, ty), ('Keep', 'STRING'), ('Ref', 'UNIQUE_ID')])],
+         # an attribute whose name merely starts with the name under test is declared in front of it
+         ('Thng', [('Id', 'UNIQUE_ID'), (attr + 'x', 'STRING'), (attr, ty), ('Keep', 'STRING'), ('Ref', 'UNIQUE_ID')])],
         [Rop(1, 'Thng', ['Ref'], 'MC', '', 'Othr', ['Id'], '1C', '')],
         [('Thng', 'I1', ['Id', attr]), ('Othr', 'I1', ['Id'])])
 
@@ -91,6 +92,9 @@ def observe(ctx, m, inst, declared, ty, cell, sps, keep):
             if o != ('value', cell):
                 raise Mismatch('read/stale-or-wrong-under-other-spelling',
                                '%s.%s reads %r, last written %r' % (declared, sp, o, cell))
+    longer = getattr(inst, declared + 'x', DELETED)
+    if longer != 'LONGER' or getattr(inst, (declared + 'x').upper(), DELETED) != 'LONGER':
+        raise Mismatch('read/other-attribute-disturbed', 'attribute %sx (set once when the instance was made) reads %r' % (declared, longer))
     if getattr(inst, 'Keep', DELETED) != keep or getattr(inst, 'KEEP', DELETED) != keep:
         raise Mismatch('read/other-attribute-disturbed',
                        'attribute Keep reads %r, expected %r' % (getattr(inst, 'Keep', DELETED), keep))
@@ -148,11 +152,11 @@ def run_attr_history(ctx, route, declared, ty, hist, sps):
     for n, (op, sp) in enumerate(hist):
         if op == 'ctor':
             v = fresh()
-            inst = m.new('Thng', **{sp: v, 'Keep': keep})
+            inst = m.new('Thng', **{sp: v, 'Keep': keep, declared + 'x': 'LONGER'})
             cell = v
             continue
         if inst is None:
-            inst = m.new('Thng', Keep=keep)
+            inst = m.new('Thng', **{'Keep': keep, declared + 'x': 'LONGER'})
             cell = 0 if ty == 'INTEGER' else ''
         if op == 'read':
             # a read (or an equality filter) under some spelling between the writes must not leave a trace
